@@ -1,10 +1,27 @@
 """Which units / harnesses decide which property.  The wording of `decided` and
-`not_covered` is copied into the evidence of every run."""
+`not_covered` is copied into the evidence of every run and into MANIFEST.json."""
+
+PARTIAL = 'The property as a whole is NOT proved; the obligations cover only the functions listed.'
 
 PROPS = {
     'C02': {
         'units': ['paths'],
-        'decided': 'path composition used by the cl23 optimiser (compose_paths) equals "follow p then q" for all paths',
-        'not_covered': ['CSE', 'de-inlining', 'constant folding', 'fe_opt', 'whole-pipeline equality of builds'],
+        'decided': 'path composition used by the cl23 optimiser and NodePath (compose_paths) equals "follow p then q" for all paths >= 1',
+        'not_covered': ['CSE', 'de-inlining', 'constant folding', 'fe_opt', 'brief_path_selection_single call-site precondition', 'whole-pipeline equality of builds'],
+    },
+    'C03': {
+        'units': ['paths', 'casts'],
+        'decided': 'classic path arithmetic (compose_paths) and the bigint<->bytes casts the classic compiler stands on, against big-endian / two\'s-complement specs',
+        'not_covered': ['do_com_prog (CLVM-hosted compiler)', 'macro expansion', 'classic vs modern agreement'],
+    },
+    'C04': {
+        'units': ['paths', 'casts'],
+        'decided': 'path composition and number<->atom casts used by the classic optimiser, for paths of any width',
+        'not_covered': ['constant_optimizer', 'cons_q_a_optimizer', 'children_optimizer', 'path_optimizer reading path atoms (finding F2 candidate)', 'fixpoint loop'],
+    },
+    'C08': {
+        'units': ['ser'],
+        'decided': 'length-prefix encoder (atom_size_blob) equals the consensus prefix table; atom decoder (atom_from_stream, Stream::read, int_from_bytes, get_u32) returns exactly what the consensus decoder returns and rejects what it rejects',
+        'not_covered': ['op-stack walker of sexp_from_stream / sexp_to_stream iterator (Box<dyn> stack)', 'byte-equality with clvmr rests on a transcribed spec'],
     },
 }
